@@ -1,3 +1,4 @@
+import functools
 from pathlib import Path
 from typing import List
 
@@ -45,6 +46,26 @@ class ParseError(Exception):
     pass
 
 
+def refuse_on_recursion_error(func):
+    """
+    The parser and every pass over the parsed program are recursive, so a
+    program that is nested too deeply (or has a very long chain of operators)
+    is refused with a ParseError instead of leaking a RecursionError.
+    """
+
+    @functools.wraps(func)
+    def wrapper(*args, **kwargs):
+        try:
+            return func(*args, **kwargs)
+        except RecursionError:
+            raise ParseError(
+                "The program is nested too deeply to be converted."
+            ) from None
+
+    return wrapper
+
+
+@refuse_on_recursion_error
 def convert(
     progin: str,
     *,
@@ -60,12 +81,9 @@ def convert(
     skip_procedure_headers: bool = False,
 ) -> str:
     compiler_configs = compiler_configs or CompilerConfigs()
-    try:
-        tree = grammar.parse(progin)
-        bv = BasicVisitor()
-        basic_prog: BasicProg = bv.visit(tree)
-    except RecursionError:
-        raise ParseError("The program is nested too deeply to be parsed.") from None
+    tree = grammar.parse(progin)
+    bv = BasicVisitor()
+    basic_prog: BasicProg = bv.visit(tree)
 
     if add_standard_prefix:
         prefix_lines = [
